@@ -15,7 +15,7 @@ ASSUMPTIONS = ["every file is on its own recognisable as the same kind as the wh
                "kind detection rejects mixed kinds by design",
                "no TAB/control characters inside sequence lines (the reader cuts a line there)",
                "names <= 60 characters without blanks (MSF/Clustal names end at the first blank)"]
-BUDGET = {"quick": dict(examples=120, workers=12, seconds=80), "thorough": dict(examples=1000, workers=16, seconds=700)}
+BUDGET = {"quick": dict(examples=400, workers=12, seconds=80), "thorough": dict(examples=1000, workers=16, seconds=700)}
 
 
 @st.composite
